@@ -12,7 +12,8 @@ CONSTANTS
   ByteMod = 3
   StartSet <- MC_Start
   TickTargets <- MC_Ticks
-  MaxOps = 7
+  MaxOps = 6
   Dev = "none"
 INVARIANTS Distinct Increasing BelowServer ReservedFresh ExtraInByte
+SYMMETRY PermsC
 CHECK_DEADLOCK FALSE
